@@ -414,6 +414,33 @@ fn seqlines_adaptors(r: &seq_io::fasta::RefRecord, expected: &[Vec<u8>], fail: &
             if mk().len() != n {
                 fail(format!("len() = {} after {} front / {} back steps, {} items to come", mk().len(), k, kb, n));
             }
+            // shortcuts that an iterator may override must agree with stepping
+            if mk().count() != n {
+                fail(format!("count() = {} after {} front / {} back steps, {} items to come", mk().count(), k, kb, n));
+            }
+            if mk().last() != rest.last().cloned() {
+                fail(format!("last() after {} front / {} back steps differs", k, kb));
+            }
+            for j in 0..=n + 1 {
+                let mut it = mk();
+                let got = it.nth(j);
+                if got != rest.get(j).cloned() {
+                    fail(format!("nth({}) after {} front / {} back steps differs", j, k, kb));
+                }
+                let after: Vec<&[u8]> = it.collect();
+                if after != rest[(j + 1).min(n)..].to_vec() {
+                    fail(format!("items after nth({}) ({} front / {} back steps) differ", j, k, kb));
+                }
+                let mut it = mk();
+                let got = it.nth_back(j);
+                if got != if j < n { Some(rest[n - 1 - j]) } else { None } {
+                    fail(format!("nth_back({}) after {} front / {} back steps differs", j, k, kb));
+                }
+            }
+            let folded: usize = mk().fold(0, |a, x| a + x.len() + 1);
+            if folded != rest.iter().map(|x| x.len() + 1).sum::<usize>() {
+                fail(format!("fold() after {} front / {} back steps differs", k, kb));
+            }
         }
     }
 }
@@ -619,6 +646,21 @@ pub fn c20(tier: Tier) -> i32 {
                             }
                             if it.next().is_some() {
                                 problems.push(format!("{} RecordSetIter (reused set): item after the end", stringify!($m)));
+                            }
+                            let n = set.len();
+                            if (&set).into_iter().count() != n {
+                                problems.push(format!("{} RecordSetIter: count() differs from len() {}", stringify!($m), n));
+                            }
+                            let heads: Vec<Vec<u8>> = (&set).into_iter().map(|r| { use seq_io::$m::Record; r.head().to_vec() }).collect();
+                            for j in 0..=n {
+                                let got = (&set).into_iter().nth(j).map(|r| { use seq_io::$m::Record; r.head().to_vec() });
+                                if got != heads.get(j).cloned() {
+                                    problems.push(format!("{} RecordSetIter: nth({}) differs from stepping", stringify!($m), j));
+                                }
+                            }
+                            let last = (&set).into_iter().last().map(|r| { use seq_io::$m::Record; r.head().to_vec() });
+                            if last != heads.last().cloned() {
+                                problems.push(format!("{} RecordSetIter: last() differs from stepping", stringify!($m)));
                             }
                         }
                     }};
